@@ -146,6 +146,8 @@ class CommandsCache(cabc.Mapping):
         self._cmds_cache: dict[str, tuple[str, bool | None]] = {}
 
         self._alias_checksum: int | None = None
+        # the $PATH directory list (in search order) the merged map was built from
+        self._paths_checksum: tuple[str, ...] | None = None
         self.threadable_predictors = default_threadable_predictors()
 
         # Path to the cache-file where all commands/aliases are cached for pre-loading"""
@@ -214,7 +216,11 @@ class CommandsCache(cabc.Mapping):
         """
         is_aliases_change = self._update_aliases_cache()
         is_paths_change = self._update_paths_cache(paths)
-        return is_aliases_change or is_paths_change
+        # Reordering $PATH or removing an entry changes which file a name
+        # resolves to even though no directory was modified.
+        is_path_list_change = tuple(paths) != self._paths_checksum
+        self._paths_checksum = tuple(paths)
+        return is_aliases_change or is_paths_change or is_path_list_change
 
     @property
     def all_commands(self):
